@@ -61,9 +61,8 @@ pub fn projections() -> Vec<Proj> {
     {
         let mut w = p("webmerc", "default", "webmerc", 0., 0.);
         w.conformal = false; // conformal only on the sphere
-        w.max_abs_lat = 85.;
-        w.lat_min = -85.;
-        w.lat_max = 85.;
+        // (the whole globe except the poles, like merc: the square cut at 85.05 degrees is a convention of
+        // tile servers, not of the projection)
         v.push(w);
     }
     // Transverse Mercator: within 30 degrees of the central meridian (60 for the geometry checks)
